@@ -170,6 +170,7 @@ def worker_init(repo, assertions=False):
     from . import nodes  # noqa
 
 
+@core.safe_worker
 def replay_chunk(args):
     lines, variants = args
     out = {"n": 0, "same": 0, "attention": [], "per_kind": {}, "dropped": 0, "skipped": 0, "lockstep_diff": []}
